@@ -8,7 +8,7 @@ from common import time_limit
 ID = "C15"
 GEN_DEPENDS = []
 RULE = ("random rose trees (1-12 leaves quick, up to 40 thorough; unary nodes, polytomies, fixed families) x entry point "
-        "(27 kinds: every *_iter / *_node_iter / *_edge_iter of Node and Tree, ancestor_iter, Tree.nodes/leaf_nodes/"
+        "(29 kinds, incl. two live generators (pre/level-order) stepped next() by next() in a random interleaving: every *_iter / *_node_iter / *_edge_iter of Node and Tree, ancestor_iter, Tree.nodes/leaf_nodes/"
         "internal_nodes/edges/leaf_edges/internal_edges, len, apply, iter()) x start node (Node methods on any node; Tree "
         "methods on the tree and on a Tree made of a spliced-out inner node) x filter (none, or a random set of accepted "
         "ids answered with bools, with truthy/falsy non-bool values, or by a callable that is itself falsy) x node class "
@@ -20,16 +20,23 @@ MODELLED_NOT_VERIFIED = [
     "C15: the Lean machines are hand-written from Node.preorder_iter/postorder_iter/levelorder_iter/leaf_iter/inorder_iter/"
     "ageorder_iter/ancestor_iter/apply and Tree.preorder_edge_iter/postorder_edge_iter and the wrappers; tied to the code "
     "by the per-case comparison of visit sequences",
-    "C15: Node.apply climbs parent pointers; the model tree has none. applyRun/pushKids (closer lists) is proved equal to a "
-    "zipper machine whose climb is the code's while loop over (ancestor, is-last-child) pairs; reading that zipper off a "
-    "parent array is not proved (per-case comparison only). ancestor_iter: the pointer climb over the parent array is "
-    "proved equal to the model (ancestor_pointer_refinement)",
-    "C15: Python generator suspension (a tree mutated during iteration) is outside the statement; a filter is a set of "
+    "C15: Node.apply and ancestor_iter climb parent pointers; the pointer-level loops over the parent array (applyPtrTrace, "
+    "ancPtrIter) are proved equal to the tree-level models on every protocol tree (apply_pointer_refinement, "
+    "ancestor_pointer_refinement); that the parent array is what the Python objects hold is the per-case comparison",
+    "C15: generator suspension: levelorder_iter is also modelled one next() at a time over a mutable heap (lvNext) with "
+    "frame/independence theorems; the other generators are modelled as complete runs only, their abandoned prefixes and "
+    "interleavings are judged by the oracle on the Python side; a tree mutated by the CALLER during iteration is outside "
+    "the statement; a filter is a set of "
     "accepted node ids - what the callable returns for them (bool or any truthy/falsy object) is varied on the Python side only",
     "C15: age order: the model sorts stably (as list.sort does); the statement asks only for monotone age, so model and "
     "implementation are compared up to the order inside groups of equal age",
 ]
-EXPLANATION = ("Final round: visits_distinct (+ visits_distinct_of_ids, build_subtree_ids_distinct): the ids every node/edge iterator "
+EXPLANATION = ("Last theorem round: apply_pointer_refinement(+_build) / apply_zipper_refinement (the literal loop of Node.apply over the "
+               "parent array = zipper machine = closer-list machine = brackets, on every protocol tree; fuel adequacy of buildTree: "
+               "protocol_faithful), generator_frame / generators_independent / levelorder_generator_spec / "
+               "levelorder_generators_interleaved (levelorder_iter one next() at a time over a mutable heap: a step changes no child "
+               "list and no other generator's state; any interleaving of two generators gives each the prefix of its own level "
+               "order). Final round: visits_distinct (+ visits_distinct_of_ids, build_subtree_ids_distinct): the ids every node/edge iterator "
                "prints are pairwise distinct on every protocol subtree ('exactly once' about the printed ids, including inRun and "
                "ageIter); inorder_run_each_node_once (the in-order statement on the function the driver runs); start_has_parent_iff "
                "(the driver's hasParent = the ancestor chain is non-empty; the det flag is protocol input); "
@@ -54,11 +61,11 @@ AGE = ["ageasc", "agedesc", "ageascint", "agedescint"]
 BOTH = ["pre", "post", "level", "leaf", "in", "preint", "postint", "apply"] + AGE          # Node and Tree entry points
 TREE_ONLY = ["preedge", "postedge", "preintedge", "postintedge", "leveledge", "leafedge", "inedge", "len",
              "nodes", "leafnodes", "internalnodes", "edges", "leafedges", "internaledges"]
-NODE_ONLY = ["anc"]
+NODE_ONLY = ["anc", "levelsched", "gensched"]
 KINDS = BOTH + TREE_ONLY + NODE_ONLY
 EDGE_KINDS = {"preedge", "postedge", "preintedge", "postintedge", "leveledge", "leafedge", "inedge",
               "edges", "leafedges", "internaledges"}
-UNFILTERED = {"apply", "len", "leafnodes", "internalnodes", "leafedges", "internaledges"}   # entry points without filter_fn
+UNFILTERED = {"apply", "len", "leafnodes", "internalnodes", "leafedges", "internaledges", "levelsched", "gensched"}   # entry points without filter_fn
 USES_EXCL = {"preint", "postint", "preintedge", "postintedge", "internalnodes", "internaledges"}
 NODECLS = ["plain", "nobool", "nolen"]
 FSTYLES = ["bool", "mixed", "falsyfn"]
@@ -257,6 +264,18 @@ def oracle(c, w, seed):
         return o_brackets(seed, w)
     if kind == "len":
         return [len([x for x in o_pre(seed) if is_leaf(x)])]
+    if kind in ("levelsched", "gensched"):
+        # two live generators (level-order; gensched: pre-order 'p' or level-order 'l' each) stepped in the order of the schedule: each must hand out its own defining order,
+        # one node per next(), then StopIteration, whatever the other one does in between
+        gk = c["gk"] if kind == "gensched" else "ll"
+        order = {"p": o_pre, "l": o_level}
+        seqs = {"1": I(order[gk[0]](seed)), "0": I(order[gk[1]](w.nodes[c["start2"]]))}
+        pos = {"1": 0, "0": 0}
+        out = []
+        for ch in c["sched"]:
+            out.append("%s:%s" % (ch, seqs[ch][pos[ch]] if pos[ch] < len(seqs[ch]) else "-"))
+            pos[ch] += 1
+        return out
     if kind == "anc":
         path = o_path(w.tree.seed_node, seed)
         up = list(reversed(path[:-1]))
@@ -366,6 +385,17 @@ def impl(c, w, seed, obj, cap=None):
         return ev
     if kind == "len":
         return [len(t)]
+    if kind in ("levelsched", "gensched"):
+        gk = c["gk"] if kind == "gensched" else "ll"
+        mk = {"p": lambda nd: nd.preorder_iter(), "l": lambda nd: nd.levelorder_iter()}
+        gens = {"1": mk[gk[0]](seed), "0": mk[gk[1]](w.nodes[c["start2"]])}
+        out = []
+        for ch in c["sched"]:
+            try:
+                out.append("%s:%s" % (ch, w.nid(next(gens[ch]))))
+            except StopIteration:
+                out.append("%s:-" % ch)
+        return out
     if kind == "anc":
         return N(seed.ancestor_iter(nf, c["incl"]) if not c["alt"] else seed.ancestor_iter(filter_fn=nf, inclusive=c["incl"]))
     if kind in AGE:
@@ -439,6 +469,9 @@ def normalise(c):
     c.setdefault("nodecls", "plain")
     c.setdefault("alt", False)
     c.setdefault("prior", [])
+    c.setdefault("start2", 0)
+    c.setdefault("sched", "")
+    c.setdefault("gk", "ll")
     return c
 
 
@@ -485,9 +518,9 @@ def one_case(ctx, dendropy, c, pending):
         refused = type(e).__name__
         refusal_ok = deliberate(e)
     filtered = c["acc"] is not None and kind not in UNFILTERED
-    nontrivial = (start != 0 or filtered or c["nodecls"] != "plain" or kind in ("apply", "in", "inedge", "anc") or kind in AGE)
+    nontrivial = (start != 0 or filtered or c["nodecls"] != "plain" or kind in ("apply", "in", "inedge", "anc", "levelsched", "gensched") or kind in AGE)
     ctx.case([c["tree"], kind, start, via, c["excl"], c["incl"], c["acc"], c["fstyle"], c["nodecls"], c["alt"], c["prior"],
-              c["ages"] if kind in AGE else None], nontrivial, sample=c, kind=kind)
+              [c["start2"], c["sched"], c["gk"]] if kind in ("levelsched", "gensched") else None, c["ages"] if kind in AGE else None], nontrivial, sample=c, kind=kind)
     if c["prior"]:
         ctx.count("after_earlier_traversals")
     if c["nodecls"] != "plain":
@@ -527,8 +560,17 @@ def one_case(ctx, dendropy, c, pending):
     filt = "*" if (acc is None or kind in UNFILTERED) else ("-" if not acc else ",".join(str(i) for i in sorted(acc)))
     line = "iter %s %d %d %d %d %s %s %s" % (
         kind, start, 1 if (via == "subtree" and start != 0) else 0, 1 if c["excl"] else 0, 1 if c["incl"] else 0, filt,
-        ",".join(tu.frac(a) for a in ages) if kind in AGE else "-", " ".join(c["tree"]))
+        ",".join(tu.frac(a) for a in ages) if kind in AGE else (
+            "%d:%s" % (c["start2"], c["sched"] or "0") if kind == "levelsched" else (
+                "%s:%d:%s" % (c["gk"], c["start2"], c["sched"] or "0") if kind == "gensched" else "-")), " ".join(c["tree"]))
     pending.append((line, c, canon))
+    if kind == "apply":   # the pointer-level loop over the parent array (apply_pointer_refinement) must say the same
+        pending.append((line.replace("iter apply ", "iter applyptr ", 1), c, canon))
+    if kind == "level" and not filtered and isinstance(got, list):
+        # the heap generator, one next() at a time (levelorder_generator_spec): the whole output, then StopIteration
+        toks_ = line.split(" ")
+        toks_[1], toks_[7] = "levelgen", str(len(got) + 1)
+        pending.append((" ".join(toks_), c, (canon + " -").strip()))
     if kind == "apply":   # the zipper machine (apply_zipper_refinement_partial) must say the same
         pending.append((line.replace("iter apply ", "iter applyzip ", 1), c, canon))
     if kind == "anc":   # the pointer-level climb over the parent array (ancestor_pointer_refinement) must say the same
@@ -609,10 +651,14 @@ def make_case(rng, toks, n, kind, start=None, via=None, max_age=6):
             prior.append([rng.choice(pool) if rng.random() < 0.7 else rng.choice(["level", "level", "post", "pre", "leaf"]),
                           None if rng.random() < 0.5 else rng.randrange(0, 4)])
     r = rng.random()
-    return {"prior": prior, "tree": toks, "kind": kind, "start": start, "via": via, "excl": rng.random() < 0.5, "incl": rng.random() < 0.5,
+    extra = {}
+    if kind in ("levelsched", "gensched"):
+        extra = {"start2": rng.randrange(n), "sched": "".join(rng.choice("01") for _ in range(rng.randint(1, 2 * n + 3))),
+                 "gk": rng.choice(["pl", "lp", "pp", "ll"])}
+    return dict(extra, **{"prior": prior, "tree": toks, "kind": kind, "start": start, "via": via, "excl": rng.random() < 0.5, "incl": rng.random() < 0.5,
             "acc": acc, "fstyle": "bool" if r < 0.4 else ("mixed" if r < 0.85 else "falsyfn"), "fsalt": rng.randrange(8),
             "nodecls": "plain" if rng.random() < 0.6 else rng.choice(["nobool", "nolen"]), "alt": rng.random() < 0.3,
-            "ages": [str(Fraction(rng.randint(0, max_age), 2)) for _ in range(n)]}
+            "ages": [str(Fraction(rng.randint(0, max_age), 2)) for _ in range(n)]})
 
 
 def run(ctx):
